@@ -27,6 +27,10 @@ MISSES = {
     'C43b': 'stop tasks always finished complete -> stop-task cases with custom required outputs and jobs that succeed without them',
     'C46b': 'cycle points were single-digit -> runs with 10-12 cycles and start tasks on both sides of the one/two-digit boundary',
     'C13b': 'absolute trigger points were always written in the canonical spelling of the workflow -> the same instants written truncated (T06), in extended format and in another time zone',
+    'C41b': 'no [environment filter] in the workload -> include/exclude filters with include lists in another order than the definitions',
+    'C23b': 'token objects were always built with their fields in canonical order -> fields given in shuffled order, and duplicate(key=value) results, must hash like their equals',
+    'C07b': 'every recurrence started at or after the initial point (the same change is caught by C16 at function level) -> recurrences 0/P3, -1/P3, -P1/P3',
+    'C31b': 'start points and all later points were single-digit -> a quarter of the runs are warm starts (2..9) of workflows with 10-12 cycles',
     'C01b': 'needs absolute triggers, which the C01 workload does not generate (its closure model is not validated for them) -> caught by C45; C01 unchanged',
 }
 
